@@ -326,12 +326,45 @@ def library_probes(tag, cls, g, make):
                 probe(f"{tag}.{cls}.lib.{fname}.cu{di}", f"xgi.{fname}(<data #{di}>, create_using=<{cls}>)", f"xgi.{fname}(create_using=)",
                       lambda X, f=f, args=args: f(*args, create_using=X))
         ps = list(params.values())
+        if ps and ps[0].name in ("H", "S", "SC", "net", "DH", "hypergraph", "data") and not fname.startswith(("write_", "draw")):
+            # the argument recipes of the read-only survey (C08): functions that need more than the network
+            from . import c08
+
+            try:
+                cands = c08.recipe(fname, make(), cls, tmp)
+            except Exception:  # noqa: BLE001
+                cands = [((), {})]
+            for ci, (a, kw) in enumerate(cands):
+                if kw.get("in_place"):
+                    continue
+                probe(f"{tag}.{cls}.lib.{fname}.r{ci}", f"xgi.{fname}(<{cls}>, ...#{ci})", f"xgi.{fname}",
+                      lambda X, f=f, a=a, kw=kw: f(X, *a, **kw))
         if ps and ps[0].name in ("H", "S", "SC", "net", "DH", "hypergraph", "data") and all(
                 q.default is not inspect.Parameter.empty or q.kind in (q.VAR_KEYWORD, q.VAR_POSITIONAL) for q in ps[1:]):
             probe(f"{tag}.{cls}.lib.{fname}", f"xgi.{fname}(<{cls}>)", f"xgi.{fname}", lambda X, f=f: f(X))
             if "in_place" in params:
                 probe(f"{tag}.{cls}.lib.{fname}.inplace", f"xgi.{fname}(<{cls}>, in_place=True)", f"xgi.{fname}(in_place=True)",
                       lambda X, f=f: f(X, in_place=True))
+    # a network that was never frozen says so, whatever its attributes are called; the copy of a frozen one too
+    for val in (True, 1, "yes"):
+        P_ = make()
+        P_["frozen"] = val
+        pre, _ = proj(P_, g)
+        try:
+            P_.add_node(g.node(9))
+            res = "ok"
+        except Exception as ex:  # noqa: BLE001
+            res = hg.classify(ex)
+        post, _ = proj(P_, g)
+        recs.append({"rid": f"{tag}.{cls}.attr_frozen.{val!r}", "what": f"{cls} with a network attribute 'frozen'={val!r}, never frozen",
+                     "kind": "plain", "name": "attribute named frozen", "twinChanged": True, "res": res, "pre": pre, "post": post})
+        F_ = make()
+        F_["frozen"] = val
+        F_.freeze()
+        C_ = F_.copy()
+        cj, _ = proj(C_, g)
+        recs.append({"rid": f"{tag}.{cls}.attr_frozen.copy.{val!r}", "what": f"copy of a frozen {cls} with a network attribute 'frozen'",
+                     "kind": "plain", "name": "attribute named frozen (copy)", "twinChanged": True, "res": "ok", "pre": cj, "post": cj})
     import shutil
 
     shutil.rmtree(tmp, ignore_errors=True)
@@ -368,7 +401,7 @@ def run(tier, seed_):
     log(f"[C18] surface probing: {len(recs)} probe records ({t():.0f}s)")
     # freeze protects the structure (attribute setters stay allowed): probes compare structure + flag
     for r in recs:
-        if r["kind"] == "probe":
+        if r["kind"] in ("probe", "plain"):
             for k in ("pre", "post"):
                 fr = r[k]["frozen"]
                 r[k] = struct(r[k])
